@@ -1,5 +1,6 @@
 (* C07 - proofs, part 5: completing a pending focus request inside render ("first selectable" of a
-   fresh list box; set_focus whose old and new positions still exist) never raises. *)
+   fresh list box; set_focus - also when its old position was removed meanwhile or the list was
+   emptied) never raises. *)
 From Coq Require Import ZArith List Bool Lia ZifyBool.
 Import ListNotations.
 From Urwid Require Import PyBase ListBoxView ListBoxViewProofs ListBoxWindowProofs ListBoxHistoryProofs ListBoxMouseProofs.
@@ -175,26 +176,25 @@ Proof.
   intros Hin Hw. destruct (number_In _ _ _ _ Hin) as (w' & Hw' & ->). replace (p - 0) with p in Hw' by lia. congruence.
 Qed.
 
-Definition PendOK (s : lb) : Prop :=
-  match pend s with
-  | PSet _ old => (exists w, nthz (items s) old = Some w) /\ (exists w, nthz (items s) (focus s) = Some w)
-  | _ => True
-  end.
-
 Lemma set_focus_complete_ok : forall s m ff,
   ViewOK s -> heights_ok (items s) -> 1 <= m ->
-  (forall w, In w (items s) -> cursor_ok w) -> PendOK s ->
+  (forall w, In w (items s) -> cursor_ok w) ->
   exists s', set_focus_complete s m ff = Ok s' /\ pend s' = PNone /\ items s' = items s /\ ViewOK s'.
 Proof.
-  intros s m ff Hv Hh Hm Hc Hp. unfold set_focus_complete. unfold PendOK in Hp.
+  intros s m ff Hv Hh Hm Hc. unfold set_focus_complete.
   destruct (pend s) as [| |cf old] eqn:Epend.
   - exists s. splits; auto.
   - apply first_selectable_ok; try assumption. intros w Hw. apply Hc. now apply nthz_In in Hw.
-  - destruct Hp as [(oldw & Hold) (neww & Hnew)]. destruct Hv as [Ho Hnd].
-    cbn [items focus off inum iden set_pend set_body_focus]. rewrite Hnew.
+  - destruct Hv as [Ho Hnd].
+    cbn [items focus off inum iden set_pend set_body_focus].
+    destruct (nthz (items s) (focus s)) as [neww|] eqn:Hnew.
+    2: { (* the walker is empty: nothing to do *)
+         eexists. split; [reflexivity|]. unfold ViewOK. cbn. splits; try reflexivity; lia. }
     destruct (old =? focus s) eqn:Eold.
     { eexists. split; [reflexivity|]. unfold ViewOK. cbn. splits; try reflexivity; lia. }
-    rewrite Hold.
+    destruct (nthz (items s) old) as [oldw|] eqn:Hold.
+    2: { (* the old position was removed meanwhile: the current offset is kept *)
+         eexists. split; [reflexivity|]. unfold ViewOK. cbn. splits; try reflexivity; lia. }
     destruct (visible_ok (items s) old (off s) (inum s) (iden s) m ff oldw) as (v & Ev & HV & Hna & Hnb & Hh0);
       [constructor; assumption | assumption | apply Hc; now apply nthz_In in Hold |].
     rewrite Ev.
@@ -284,13 +284,13 @@ Definition ShowsWindow (s : lb) (maxrow : Z) (fflag : bool) (win : list (Z * Z))
   end.
 
 Lemma render_ok_lemma : forall s m ff,
-  ViewOK s -> WidgetsOK (items s) -> 1 <= m -> PendOK s ->
+  ViewOK s -> WidgetsOK (items s) -> 1 <= m ->
   exists s' win cur,
     render s m ff = Ok (s', (win, cur)) /\
     pend s' = PNone /\ items s' = items s /\ ViewOK s' /\ ShowsWindow s' m ff win cur.
 Proof.
-  intros s m ff Hv [Hh Hc] Hm Hp.
-  destruct (set_focus_complete_ok s m ff Hv Hh Hm Hc Hp) as (s' & Ec & Hp' & Hi' & Hv').
+  intros s m ff Hv [Hh Hc] Hm.
+  destruct (set_focus_complete_ok s m ff Hv Hh Hm Hc) as (s' & Ec & Hp' & Hi' & Hv').
   rewrite (render_via_complete _ _ _ _ Ec Hp'), (render_no_pending _ _ _ Hp').
   destruct (nthz (items s') (focus s')) as [w|] eqn:Hw.
   - destruct Hv' as [Ho' Hnd'].
@@ -311,23 +311,11 @@ Qed.
 Lemma render_any_history_lemma :
   forall ops s s' out maxrow fflag,
     ViewOK s -> Forall op_ok ops -> In (Ok (s', out)) (run s ops) ->
-    WidgetsOK (items s') -> 1 <= maxrow -> PendOK s' ->
+    WidgetsOK (items s') -> 1 <= maxrow ->
     exists s'' win cur,
       render s' maxrow fflag = Ok (s'', (win, cur)) /\
       pend s'' = PNone /\ items s'' = items s' /\ ViewOK s'' /\ ShowsWindow s'' maxrow fflag win cur.
 Proof.
-  intros ops s s' out maxrow fflag Hs Hops Hin Hw Hm Hp.
+  intros ops s s' out maxrow fflag Hs Hops Hin Hw Hm.
   apply render_ok_lemma; try assumption. eapply history_view_ok; eassumption.
 Qed.
-
-(* set_focus leaves a request whose two positions exist; only a walker edit (or an operation that
-   is not modelled) can invalidate it *)
-Lemma set_focus_pend_ok s position cf s' : set_focus s position cf = Ok s' -> PendOK s'.
-Proof.
-  unfold set_focus. destruct (nthz (items s) (focus s)) as [w|] eqn:Hw; [|discriminate].
-  cbn [items set_pend]. destruct (nthz (items s) position) as [w'|] eqn:Hw'; [|discriminate].
-  intros [= <-]. unfold PendOK. cbn. split; eauto.
-Qed.
-
-Lemma fresh_pend_ok its f o n d : PendOK {| items := its; focus := f; off := o; inum := n; iden := d; pend := PFirst |}.
-Proof. exact I. Qed.
